@@ -26,43 +26,13 @@ func runC15(c *Ctx) {
 	r.Rule("R4-trusted-ip", "isTrustedIP true only as trustedIPs.Has(GetClientIP result), error-free and non-nil", 3)
 	r.Rule("R5-netset-agreement", "NetSet add/has key agreement, same-mask insertion, family selection, host-bit rejection", 7)
 
-	// ---- R1 ---------------------------------------------------------------------------------
-	rule := "R1-query-free-match"
-	isAllowedPath := c.Fn(rule, "main.isAllowedPath")
-	pathRegexF := c.Field(rule, "main.allowedRoute.pathRegex")
-	getURI := c.Fn(rule, "pkg/requests/util.GetRequestURI")
-	if isAllowedPath != nil && pathRegexF != nil && getURI != nil {
-		// every MatchString on an allowedRoute.pathRegex in the program
-		n := 0
-		for _, fn := range c.P.ModFns {
-			for _, b := range fn.Blocks {
-				for _, in := range b.Instrs {
-					call, ok := in.(*ssa.Call)
-					if !ok || call.Call.StaticCallee() == nil || call.Call.StaticCallee().Pkg == nil || call.Call.StaticCallee().Pkg.Pkg.Path() != "regexp" {
-						continue
-					}
-					if len(call.Call.Args) < 2 || !isFieldLoadOrValue(call.Call.Args[0], pathRegexF) {
-						continue
-					}
-					n++
-					c.R.CallSites++
-					key := "match-operand|" + fnKey(fn)
-					ok2, why := c.queryFree(rule, call.Call.Args[1], getURI, 0)
-					if ok2 {
-						c.ok(rule, key, in, "operand is query- and fragment-free: "+why)
-					} else {
-						c.bad(rule, key, in, "a skip-auth rule is matched against a string that can carry the query or fragment: "+why, nil, 0)
-					}
-				}
-			}
-		}
-		if n == 0 {
-			c.R.Unknown(rule, "match-operand|none", "-", "no regex match on allowedRoute.pathRegex found")
-		}
-	}
+	checkBypassOperand(c, "R1-query-free-match")
+	isAllowedPath := c.Fn("R2-route-predicates", "main.isAllowedPath")
+	pathRegexF := c.Field("R2-route-predicates", "main.allowedRoute.pathRegex")
+	_ = pathRegexF
 
 	// ---- R2 ---------------------------------------------------------------------------------
-	rule = "R2-route-predicates"
+	rule := "R2-route-predicates"
 	isAllowedMethod := c.Fn(rule, "main.isAllowedMethod")
 	isAllowedRoute := c.Fn(rule, "(*main.OAuthProxy).isAllowedRoute")
 	methodF := c.Field(rule, "main.allowedRoute.method")
@@ -694,4 +664,41 @@ func runC15R5(c *Ctx) {
 			c.bad(rule, key, p.Exit, "a CIDR whose address has host bits set (or that failed to parse) is accepted as a trusted network", p, p.End())
 		}
 	})
+}
+
+// checkBypassOperand (C15.R1, also C01): the string matched by skip-auth rules is the guarded, query-free request path.
+func checkBypassOperand(c *Ctx, rule string) {
+	isAllowedPath := c.Fn(rule, "main.isAllowedPath")
+	pathRegexF := c.Field(rule, "main.allowedRoute.pathRegex")
+	getURI := c.Fn(rule, "pkg/requests/util.GetRequestURI")
+	if isAllowedPath != nil && pathRegexF != nil && getURI != nil {
+		// every MatchString on an allowedRoute.pathRegex in the program
+		n := 0
+		for _, fn := range c.P.ModFns {
+			for _, b := range fn.Blocks {
+				for _, in := range b.Instrs {
+					call, ok := in.(*ssa.Call)
+					if !ok || call.Call.StaticCallee() == nil || call.Call.StaticCallee().Pkg == nil || call.Call.StaticCallee().Pkg.Pkg.Path() != "regexp" {
+						continue
+					}
+					if len(call.Call.Args) < 2 || !isFieldLoadOrValue(call.Call.Args[0], pathRegexF) {
+						continue
+					}
+					n++
+					c.R.CallSites++
+					key := "match-operand|" + fnKey(fn)
+					ok2, why := c.queryFree(rule, call.Call.Args[1], getURI, 0)
+					if ok2 {
+						c.ok(rule, key, in, "operand is query- and fragment-free: "+why)
+					} else {
+						c.bad(rule, key, in, "a skip-auth rule is matched against a string that can carry the query or fragment: "+why, nil, 0)
+					}
+				}
+			}
+		}
+		if n == 0 {
+			c.R.Unknown(rule, "match-operand|none", "-", "no regex match on allowedRoute.pathRegex found")
+		}
+	}
+
 }
